@@ -7,6 +7,7 @@ pub mod c02;
 pub mod ctlrun;
 pub mod c03;
 pub mod c04;
+pub mod c08;
 pub mod c11;
 pub mod c12;
 pub mod c13;
@@ -23,6 +24,10 @@ pub fn run(ctx: &mut Ctx) -> bool {
         "C02" => {
             ctx.rule = c02::RULE_C02.into();
             c02::run_c02(ctx)
+        }
+        "C08" => {
+            ctx.rule = c08::RULE.into();
+            c08::run(ctx)
         }
         "C10" => {
             ctx.rule = c02::RULE_C10.into();
